@@ -171,10 +171,16 @@ def tarjan : Digraph :=
 example : tarjan.wfb = true := by decide
 example : ((computeRpo tarjan).map fun r => (List.range 13).map r.num)
     = some [1, 7, 6, 2, 8, 13, 5, 3, 10, 12, 4, 11, 9] := by decide
+/-- the hypotheses `WF` and `Rooted` of `rpo_perm` / `entry_is_one` hold of this concrete graph -/
+example : tarjan.WF := wf_of_wfb (by decide)
+example : tarjan.Rooted :=
+  rooted_of_order (l := [5, 9, 11, 8, 12, 4, 1, 2, 6, 10, 7, 3, 0]) (by decide) (by decide)
 /-- an irreducible graph with a self loop and a catch edge: 0→1, 0→2, 1⇄2, 2→2, 1 ⇢ 3 -/
 def irr : Digraph :=
   { n := 4, entry := 0, edges := [[1, 2], [2], [1, 2], []], catchEdges := [[], [3], [], []] }
 example : irr.wfb = true := by decide
+example : irr.WF ∧ irr.Rooted :=
+  ⟨wf_of_wfb (by decide), rooted_of_order (l := [2, 3, 1, 0]) (by decide) (by decide)⟩
 example : ((computeRpo irr).map fun r => ((List.range 4).map r.num, r.order))
     = some ([1, 2, 4, 3], [2, 3, 1, 0]) := by decide
 
